@@ -17,6 +17,9 @@ Decided:
 Not decided: equality of the resulting tree with the reference semantics (execution), chains of patches, ADIR/DELD
 (no-ops here; the property text does not fix their effect).
 """
+import os
+import re
+
 from .. import dispatch as D
 from .. import wire as W
 from ..mir import const_int, op_place
@@ -509,7 +512,8 @@ def run(ctx):
                     else:
                         break
                 if prod is None:
-                    bounded, detail = False, "the written slice is not produced by a slicing call"
+                    # the whole buffer (or a value this rule cannot trace) is written: not the pattern decided here
+                    detail = "a whole buffer is written (count of such writes not decided here)"
                     continue
                 inside = prod[1] in blocks
                 dl = set()
@@ -640,24 +644,34 @@ def run(ctx):
     def storage(op, depth=0):
         """the local whose storage an operand views: through copies, borrows and slice/deref views"""
         pl = op_place(op)
-        if pl is None or depth > 12:
+        if pl is None or depth > 48:
             return None
         ds = adefs.get(pl["l"], [])
+        if len(ds) > 1:
+            # a helper's result slot: written with Ok(payload) on the success path and with errors elsewhere
+            oks = [d_ for d_ in ds if d_[0] == "assign" and not d_[3]["lhs"].get("p") and d_[3].get("rv", {}).get("k") == "agg" and d_[3]["rv"].get("variant") in ("Ok", "Some")]
+            others = [d_ for d_ in ds if d_ not in oks]
+            if len(oks) == 1 and all((d_[0] == "assign" and d_[3].get("rv", {}).get("variant") in ("Err", "None")) or (d_[0] == "call" and "from_residual" in (d_[3].get("res") or "")) for d_ in others):
+                ds = oks
         if len(ds) != 1:
             return pl["l"]
         kind, _b, _i, x = ds[0]
         if kind == "assign" and not x["lhs"].get("p"):
             rv = x.get("rv", {})
             if rv.get("k") == "use":
+                src_ = op_place(rv["a"])
+                if src_ and src_.get("p") and re.match(r"(std::ops::ControlFlow|std::result::Result|std::option::Option)<", ab.locals[src_["l"]]["ty"]):
+                    # the payload of an Ok / Some / Continue wrapper (a helper's `Result<Vec<u8>, _>` unwrapped with `?`)
+                    return storage({"c": {"l": src_["l"], "p": []}}, depth + 1)
                 return storage(rv["a"], depth + 1) if op_place(rv["a"]) else pl["l"]
+            if rv.get("k") == "agg" and rv.get("variant") in ("Ok", "Some", "Continue") and len(rv.get("ops", [])) == 1 and op_place(rv["ops"][0]):
+                return storage(rv["ops"][0], depth + 1)
             if rv.get("k") in ("ref", "rawptr"):
-                base = rv["p"]
-                if "*" not in base.get("p", ()):
-                    return base["l"]
-                return storage({"c": {"l": base["l"], "p": []}}, depth + 1)
+                # a borrow of a local views that local's storage; a moved-in value keeps the storage it was created with
+                return storage({"c": {"l": rv["p"]["l"], "p": []}}, depth + 1)
             if rv.get("k") == "cast":
                 return storage(rv["a"], depth + 1)
-        if kind == "call" and (x.get("res") or "").endswith(VIEW) and x["args"]:
+        if kind == "call" and ((x.get("res") or "").endswith(VIEW) or (x.get("res") or "").endswith("Try>::branch")) and x["args"]:
             return storage(x["args"][0], depth + 1)
         return pl["l"]
 
@@ -676,6 +690,8 @@ def run(ctx):
                 appended = True
                 if storage(t["args"][0]) in written - {None}:
                     ok = True
+                elif os.environ.get("PV_DEBUG"):
+                    print("DEBUG payload", storage(t["args"][0]), written)
     ctx.ob("PROV", "AddFile|payload", ok and appended, f"AddFile writes the buffer ({ok}) that is filled from read_data_block_patch ({appended})", ab.file, ab.line)
     # loop bound: data.len() < fop.file_size
     fs_ok = False
